@@ -290,6 +290,11 @@ def c19(ck):
             if kind == "param" and k >= 1:
                 model_lines.append("m%d cert_matches %s %s %s %s" % (n, hx(idl), STEPS[k], hx(json.dumps(dict(canon[k]["parameters"], client_id=cid))), hx(json.dumps(rq["parameters"]))))
                 model_meta["m%d" % n] = (k, desc, rq, success)
+            if not success and rq.get("oneway") is not True:
+                got_error = any(isinstance(y, dict) and y.get("error") is not None for y in (reps or []))
+                if not got_error:
+                    ck.failures.append({"what": "a deviating request (not oneway) was not answered with an error reply", "step": STEPS[target_k], "deviation": kind,
+                                        "detail": desc if not isinstance(desc, list) else [str(x) for x in desc], "request": rq, "replies": reps})
             if success and rq.get("oneway") is not True:
                 # Test09: a set element mapped to something other than {} is accepted (known finding)
                 if k == 9 and kind == "param" and "set" in str(desc[0:1]) and isinstance(rq["parameters"].get("set"), dict) and \
